@@ -447,10 +447,104 @@ void pairs(vf::Ctx& c)
     lab("significands a few units apart", close);
 }
 
+
+// ------------------------------------------------------------------ constant-evaluation leg (long double rounding family)
+// C13 owns compile-time = run-time in general; this small table is here because the arguments that matter for long
+// double - more than 53 significant bits: odd integers above 2^53, halves +- 2^-63 - are exactly the ones this harness
+// is about.  Every entry is evaluated in a constant expression (constexpr array initialiser) and compared at run time
+// with glibc's *l function on the same value.  (2^63 - 0.5 is left out: its lrint does not fit long, which is not a constant.)
+struct CtRow {
+    ld x;
+    ld floor_, ceil_, trunc_, round_, rint_, rintl_;
+    long lrint_, lrintl_;
+    long long llrint_, llrintl_;
+};
+#define C16_CT(v)                                                                                                       \
+    CtRow { (v), etl::floor(v), etl::ceil(v), etl::trunc(v), etl::round(v), etl::rint(v), etl::rintl(v), etl::lrint(v), etl::lrintl(v), etl::llrint(v), etl::llrintl(v) }
+constexpr CtRow k_ct[] = {
+    C16_CT(0x1p53L + 1.0L),
+    C16_CT(-(0x1p53L + 1.0L)),
+    C16_CT(0x1p62L + 1.0L),
+    C16_CT(0x1p63L - 1025.0L), // (values within half a double-ulp of 2^63 are avoided: a tree that narrows the argument to
+                               //  double first would turn them into non-constant expressions = a build failure, not a verdict)
+    C16_CT(-0x1p63L),
+    C16_CT(-(0x1p63L - 1025.0L)),
+    C16_CT(0.5L + 0x1p-64L),
+    C16_CT(0.5L - 0x1p-65L),
+    C16_CT(-(0.5L + 0x1p-64L)),
+    C16_CT(1.5L - 0x1p-63L),
+    C16_CT(1.5L + 0x1p-63L),
+    C16_CT(-(2.5L + 0x1p-62L)),
+    C16_CT(2.5L - 0x1p-62L),
+    C16_CT(0x1p55L + 1.5L),
+    C16_CT(0x1p52L + 0.5L),
+    C16_CT(0x1p52L + 1.5L),
+    C16_CT(-(0x1p52L + 0.5L)),
+    C16_CT(0x1p60L + 0.5L),
+    C16_CT(0x1p60L + 1.5L),
+    C16_CT(0x1p62L + 0.5L),
+    C16_CT(0x1p62L + 1.5L),
+    C16_CT(-(0x1p62L + 0.5L)),
+    C16_CT(0x1p53L + 0.25L),
+    C16_CT(0x1p61L + 0.75L),
+    C16_CT(2.5L),
+    C16_CT(3.5L),
+    C16_CT(-2.5L),
+    C16_CT(0.5L),
+    C16_CT(-0.5L),
+    C16_CT(-0.0L),
+    C16_CT(0.0L),
+    C16_CT(1e-4000L),
+    C16_CT(-1e-4000L),
+    C16_CT(123456789.987654321L),
+    C16_CT(-9007199254740992.5L),
+    C16_CT(4611686018427387903.5L),
+};
+char const* const k_ct_names[] = {"ct.floor", "ct.ceil", "ct.trunc", "ct.round", "ct.rint", "ct.rintl", "ct.lrint", "ct.lrintl", "ct.llrint", "ct.llrintl"};
+
+auto ct_case(CtRow const& row, int which, bool run_mode) -> std::string
+{
+    auto const r = raw(row.x);
+    Case k{k_ct_names[which], "f80", 2, r.se, r.mant, 0};
+    vf::Flight<Case> fl(k_ct_names[which], k);
+    Out o;
+    int rc = 0;
+    switch (which) {
+    case 0: rc = cmpl(row.floor_, o_floorl(row.x), &o); break;
+    case 1: rc = cmpl(row.ceil_, o_ceill(row.x), &o); break;
+    case 2: rc = cmpl(row.trunc_, o_truncl(row.x), &o); break;
+    case 3: rc = cmpl(row.round_, o_roundl(row.x), &o); break;
+    case 4: rc = cmpl(row.rint_, o_rintl(row.x), &o); break;
+    case 5: rc = cmpl(row.rintl_, o_rintl(row.x), &o); break;
+    case 6: rc = cmpi(row.lrint_, o_lrintl(row.x), &o); break;
+    case 7: rc = cmpi(row.lrintl_, o_lrintl(row.x), &o); break;
+    case 8: rc = cmpi(row.llrint_, o_llrintl(row.x), &o); break;
+    default: rc = cmpi(row.llrintl_, o_llrintl(row.x), &o); break;
+    }
+    std::string d;
+    if (rc == 2) { d = std::string("constant-evaluated ") + (k_ct_names[which] + 3) + "(f80 " + show_arg_l(row.x) + "): etl " + o.etl + ", libm at run time " + o.ref; }
+    if (run_mode) {
+        vf::eval("f80.constexpr");
+        vf::nontrivial_count();
+        if (rc == 2) { vf::mismatch(k_ct_names[which], k, d); }
+    }
+    return d;
+}
+
+void ct_leg(vf::Ctx& c)
+{
+    if (c.shard != 0) { return; }
+    for (auto const& row : k_ct) {
+        for (int w = 0; w < 10; ++w) { ct_case(row, w, true); }
+    }
+    vf::count("f80.constexpr.values (all with more than 53 significant bits or on a tie)", sizeof(k_ct) / sizeof(k_ct[0]));
+}
+
 } // namespace
 
 void vf_run(vf::Ctx& c)
 {
+    ct_leg(c);
     grid(c);
     randoms(c);
     pairs(c);
@@ -461,6 +555,16 @@ std::string vf_replay(std::string const& /*sub*/, std::string const& cs)
 {
     auto const p = parse_case(cs);
     if (p.ty != "f80") { return "replay: unknown type " + p.ty; }
+    if (p.fn.rfind("ct.", 0) == 0) {
+        for (int w = 0; w < 10; ++w) {
+            if (p.fn != k_ct_names[w]) { continue; }
+            for (auto const& row : k_ct) {
+                auto const r = raw(row.x);
+                if (r.se == static_cast<std::uint16_t>(p.a) && r.mant == p.b) { return ct_case(row, w, false); }
+            }
+        }
+        return "replay: value is not in the constant-evaluation table: " + cs;
+    }
     for (auto const& f : k_unary) {
         if (p.fn == f.name) {
             ld const x = mk(static_cast<std::uint16_t>(p.a), p.b);
